@@ -117,7 +117,8 @@ def run(rep: Report, ctx: Any) -> str:
     it, ji = ctx.flow
     rep.rule("R12.1", "no observation of the order of a set reaches generated output: sorted / singleton / order-insensitive / "
                       "diagnostics-only (frozen); no environment-dependent source is used")
-    rep.rule("R12.2", "aggregates are emitted through a sort; worklist rounds take errors from the last round only, and what decides about "
+    rep.rule("R12.2", "aggregates are emitted through a sort; worklist rounds keep what they record for a re-queued item (its error, the re-queue "
+                      "entry) from the last round only, and what decides about "
                       "another round is bound monotonically per item (one constant, or accumulated from itself) and can be moved by an item; "
                       "suffix tests on reference paths are separator-anchored; updates of already registered classes are monotone")
     rep.rule("R12.3", "a field that is filled in after construction (declared Optional, written outside the constructors) of a class whose "
@@ -360,11 +361,13 @@ def _bindings(st: ast.stmt) -> list[tuple[str, ast.AST | None]]:
 
 def _round_loops(rep: Report, ix: Any) -> None:
     """worklist rounds, found by role: a loop in which a local is traversed item by item (by the loop itself or by a private helper it
-    is handed to) and re-bound, inside the loop, to what was collected for the next round.  Whatever records an error on a path that
-    also re-queues the item must start empty in every round: an item that fails in one round and succeeds in a later one must not
-    leave its error behind, or the diagnostics depend on the order of definitions.  Indifferent to how the loop is driven (flag,
-    `while True` + break, counter), to continue versus else, to parallel lists versus one list of records, and to a round or an item
-    step that lives in a helper."""
+    is handed to) and re-bound, inside the loop, to what was collected for the next round.  Whatever is put into a list on a path that
+    also re-queues the item (the error of the failed attempt, a record that carries it, the entry of the next work list) is the record
+    of one attempt, and the list must start empty in every round: an item that fails in one round and succeeds in a later one must
+    not leave its error behind, or the diagnostics depend on the order of definitions.  What the record is made of does not matter
+    (an error object, a tuple / named record around it, an error class that is a parameter).  Indifferent to how the loop is driven
+    (flag, `while True` + break, counter), to continue versus else, to parallel lists versus one list of records from which the next
+    work list is derived, and to a round or an item step that lives in a helper."""
     from ..astutil import cfg_of, enclosing_loop_body, region
 
     cfgs: dict[str, Any] = {}
@@ -458,13 +461,14 @@ def _round_loops(rep: Report, ix: Any) -> None:
                 return b in cfg.reachable_from(a, avoid=lambda n: n is la and la is not None) or \
                     a in cfg.reachable_from(b, avoid=lambda n: n is lb and lb is not None)
 
+            # what is recorded for an item on the way on which it is re-queued - the error of the failed attempt, a record that holds it,
+            # the entry in the next work list itself - is a record of one attempt.  How many attempts an item needs depends on the order
+            # of definitions, so every list such a record goes into starts empty in every round.  (Error records first: they give the
+            # obligation its key.)
             stale: dict[tuple[str, str], tuple[Any, ast.stmt, str, ast.AST]] = {}
-            for m in grows:
-                g, st, recv, payload = m
-                if not (constructs_error(payload) or names_in_load(payload) & errs[g.qual]):
-                    continue
-                if any(r[0] is g and on_one_path(g, st, r[1]) for r in requeues):
-                    stale.setdefault(same.find((g.qual, recv)), m)
+            with_requeue = [m for m in grows if any(r[0] is m[0] and on_one_path(m[0], m[1], r[1]) for r in requeues)]
+            for m in sorted(with_requeue, key=lambda m: not (constructs_error(m[3]) or bool(names_in_load(m[3]) & errs[m[0].qual]))):
+                stale.setdefault(same.find((m[0].qual, m[2])), m)
             changed = True
             while changed:  # what a per-round error list is poured into carries the same obligation
                 changed = False
@@ -475,9 +479,6 @@ def _round_loops(rep: Report, ix: Any) -> None:
                         stale[c] = m
                         changed = True
             n_driven[0] += _round_progress(rep, f, loop, scope, same, by_name, alias_calls)
-            rep.check(bool(stale), "R12.2", f"{short(f)}::round-structure", "the worklist loop re-queues items but records no error "
-                      "together with the re-queue", where(f, loop), lhs=[sorted(work), sorted({m[2] for m in requeues})],
-                      rhs="work list re-bound per round, errors recorded with the re-queue")
             funcs = {g.qual: g for g, _ in scope}
             f_stmts = scope[0][1]
             in_loop = {id(s) for s in f_stmts}
@@ -522,8 +523,8 @@ def _round_loops(rep: Report, ix: Any) -> None:
                         break
                 g, st, recv, payload = m
                 rep.check(not why, "R12.2", f"{short(f)}::round-errors[{role_anon(payload, g.node)[:60]}]",
-                          f"{why}: it accumulates the errors of items that are re-queued, so whether an error is reported depends on the "
-                          "order of definitions", where(g, st), lhs=recv, rhs="starts empty in every round")
+                          f"{why}: it accumulates what is recorded for items that are re-queued (their errors, their entries for the next round), "
+                          "so what is reported depends on how many rounds an item needed, that is on the order of definitions", where(g, st), lhs=recv, rhs="starts empty in every round")
     rep.floor("progress_loops", n_rounds, 1)
     rep.floor("round_loops_driven_by_what_the_items_did", n_driven[0], 1)
 
@@ -1023,6 +1024,8 @@ def _late_filled_fields(rep: Report, ctx: Any) -> None:
     for tname, ti in sorted(ctx.jinja.templates.items()):
         alias = _template_aliases(ti, nodes)
         bodies = {"<top>": ti.tree.body, **{m.name: m.body for m in ti.tree.find_all(nodes.Macro)}}
+        scope_params = {m.name: {a.name for a in m.args} for m in ti.tree.find_all(nodes.Macro)}
+        local_names = _raw_bound_names(ctx.jinja, ti, nodes)
         for mname, body in bodies.items():
             subj = table[(tname, mname)]
             for g in _own_template_nodes(body, nodes):
@@ -1035,7 +1038,7 @@ def _late_filled_fields(rep: Report, ctx: Any) -> None:
                 if not owners:
                     continue
                 # one construct, one key: a read through a template-local name for an access path is the read of that path
-                key = f"{tname}::{mname}::{_unfolded_text(g, alias, nodes)}"
+                key = f"{tname}::{_key_scope(mname, g, scope_params, local_names, alias, nodes)}::{_unfolded_text(g, alias, nodes)}"
                 if key in seen:
                     continue
                 seen.add(key)
@@ -1049,6 +1052,26 @@ def _late_filled_fields(rep: Report, ctx: Any) -> None:
                           "of definitions in the document", where=f"{PKG}/templates/{tname}:{getattr(g, 'lineno', 0)}",
                           lhs=expr_text(base), rhs=f"a name for an object handed to render(), here: {sorted(subj)}")
     rep.floor("template_reads_of_late_filled_fields", len(seen), 5)
+
+
+def _key_scope(mname: str, e: Any, scope_params: dict[str, set[str]], local_names: set[str], alias: dict[int, Any], nodes: Any) -> str:
+    """the scope under which a template expression is keyed.  An access path whose root is a name of the render context - not a parameter
+    of the macro it is written in, not bound by the template itself (set / for / with) - denotes the same object in every scope of the
+    template: it is one construct wherever it is written, at the top level or in a macro the top level calls.  Everything else is
+    keyed by the macro whose parameters give it its meaning."""
+    if mname == "<top>":
+        return mname
+    root = e
+    for _ in range(64):
+        root = _resolve_alias(root, alias)
+        if isinstance(root, (nodes.Getattr, nodes.Getitem, nodes.Call, nodes.Filter)) and root.node is not None:
+            root = root.node
+        else:
+            break
+    if isinstance(root, nodes.Name) and root.name.isidentifier() and root.name not in scope_params.get(mname, set()) and \
+            root.name not in local_names:
+        return "<top>"
+    return mname
 
 
 def _fresh_object(target: ast.AST, f: Any, ix: Any) -> bool:
@@ -2040,6 +2063,8 @@ def _redeclared_classes(rep: Report, ctx: Any) -> None:
                          for q in av.types if q in compared}
         scopes: dict[str, list[Any]] = {"<top>": ti.tree.body}
         scopes.update({m.name: m.body for m in ti.tree.find_all(nodes.Macro)})
+        scope_params = {m.name: {a.name for a in m.args} for m in ti.tree.find_all(nodes.Macro)}
+        local_names = _raw_bound_names(ctx.jinja, ti, nodes)
         seen: set[str] = set()
         for mname, body in scopes.items():
             for g in _own_template_nodes(body, nodes):
@@ -2052,12 +2077,13 @@ def _redeclared_classes(rep: Report, ctx: Any) -> None:
                 if not owners:
                     continue
                 text = _unfolded_text(g, alias, nodes)
+                kscope = _key_scope(mname, g, scope_params, local_names, alias, nodes)
                 # (a) order of a field that is compared without regard to order
                 for q in owners:
                     if compared[q].get(g.attr):
                         for verdict, at in _order_fate(g, parent, ti.tree, nodes):
                             shown = at.iter if isinstance(at, nodes.For) else at
-                            key = f"{tname}::{mname}::order of {_unfolded_text(shown, alias, nodes) if isinstance(shown, nodes.Expr) else text}"
+                            key = f"{tname}::{kscope}::order of {_unfolded_text(shown, alias, nodes) if isinstance(shown, nodes.Expr) else text}"
                             if key in seen:
                                 continue
                             seen.add(key)
@@ -2082,7 +2108,7 @@ def _redeclared_classes(rep: Report, ctx: Any) -> None:
                         read = _self_reads(ix, c, g.attr)
                     else:
                         continue
-                    key = f"{tname}::{mname}::{text} of {c.name}"
+                    key = f"{tname}::{kscope}::{text} of {c.name}"
                     if key in seen:
                         continue
                     seen.add(key)
